@@ -1595,6 +1595,7 @@ theorem pinv_step_node {P : Program} {d : DagRef} (hp : PlainP P d) {s : St} (h 
     simp only [Bool.false_eq_true, if_false] at hs
     obtain rfl := Option.some.inj hs
     have x := mk s _ htk rfl rfl rfl rfl (fun _ _ => rfl) h1 h.quiet
+    rw [hcP]
     exact node_afterBody_plain hp x h2 [] k kw inv h3
   | slept k kw inv h1 h2 h3 =>
     simp only [Bool.false_eq_true, if_false] at hs
